@@ -34,7 +34,7 @@ MANIFEST_ENTRY = {
         "generator; same resolved availabilityStartTime. The patch theorem is about the handler's structure "
         "(same ManifestContext functions at request time); Jinja include mechanics are covered only by the "
         "document comparison. Trusted: Lean kernel, harness incl. its XML-patch applier, driver, shims."),
-    "technique": "Lean 4 proof (slice characterisation, strict monotonicity of starts, loop cover/minimality lemmas) + model/implementation correspondence",
+    "technique": "Lean 4 proof (slice characterisation, strict monotonicity of starts, loop cover/minimality lemmas) + source-to-Lean translation re-proved equal to the model each run + model/implementation correspondence",
 }
 PROP_FILES = ["DashLive/Props/C09.lean", "DashLive/Props/GenTie.lean", "DashLive/Props/GenTieTimeline.lean", "DashLive/Props/Generated.lean"]
 LEAN_TARGETS = ["DashLive.Props.C09", "DashLive.Props.GenTie", "DashLive.Props.GenTieTimeline", "DashLive.Props.Generated"]
@@ -52,7 +52,8 @@ def _gen_arith():
 
 
 GENERATORS = [_gen_arith]
-TRUSTED = ["harness/segwalk.py MPD reader, the minimal XML-patch applier in harness/props/c09.py, /verif/shims"]
+TRUSTED = [
+    "harness/gen_arith.py, gen_timeline.py, gen_liveindex.py, pytolean.py: Python source text -> Lean translation of get_segment_index, generateSegmentTimeline and the media handler index calculation (semantics of the accepted subset, see DESIGN 4); Props/GenTie*.lean prove the translated definitions equal to the model","harness/segwalk.py MPD reader, the minimal XML-patch applier in harness/props/c09.py, /verif/shims"]
 ASSUMPTIONS = [
     "T1 is at least depth + 2 s after availabilityStartTime (constant clamped depth)",
     "start=today is only paired within one UTC day (C08 symbolic_stable); epoch/year/month/explicit cross day boundaries",
